@@ -2,9 +2,9 @@ import NodisVerif.Model.Api
 import NodisVerif.Model.F64Arith
 /-
   Text <-> float64 for the sorted-set handlers: `strconv.ParseFloat(s, 64)` and
-  `strconv.FormatFloat(v, 'f', -1, 64)` on the integer-valued fragment of `Api.parseFloatText` /
-  `Api.formatFloat`, extended exactly by decimal integers of any size (parsing only) and by the
-  special values:
+  `strconv.FormatFloat(v, 'f', -1, 64)`. Since work package C both are the full decimal functions of
+  Model/FloatDec.lean (fractions, exponents, underscores, range errors, shortest round-trip text); this file
+  keeps the names the handlers and proofs use.
 
   * `strconv.special`: an optional sign followed by "inf" or "infinity" (any letter case, nothing
     after it) is ±Inf; "nan" (any letter case, NO sign, nothing after it) is NaN. Anything else that
@@ -13,37 +13,17 @@ import NodisVerif.Model.F64Arith
 -/
 namespace NodisVerif.FloatText
 
-def lowerAscii (b : Bytes) : Bytes := b.map fun c => if 65 ≤ c ∧ c ≤ 90 then c + 32 else c
+abbrev lowerAscii := FloatDec.lowerAscii
 
 /-- `math.NaN()` -/
-def goNaN : F64 := 0x7FF8000000000001
+abbrev goNaN : F64 := FloatDec.goNaN
 
-/-- `strconv.ParseFloat(b, 64)`: `some (some x)` parsed, `some none` = syntax error,
-    `none` = outside the model (fractions, exponents, hex floats, underscores, huge integers) -/
-def parseFloat (b : Bytes) : Option (Option F64) :=
-  let (signed, neg, body) : Bool × Bool × Bytes := match b with
-    | 43 :: r => (true, false, r)
-    | 45 :: r => (true, true, r)
-    | r => (false, false, r)
-  let lb := lowerAscii body
-  if lb = Bytes.ofString "inf" ∨ lb = Bytes.ofString "infinity" then some (some (F64.inf neg))
-  else if !signed ∧ lb = Bytes.ofString "nan" then some (some goNaN)
-  else match lb with
-    | c :: _ =>
-      if c = 105 ∨ c = 110 then some none else
-      if body.all isDigit ∧ body.length ≤ 400 then
-        -- a decimal integer of any size: correctly rounded (ties to even); beyond the float64 range
-        -- ParseFloat returns ±Inf WITH a range error
-        let x := F64.roundPack neg (digitsToNat body 0) 0
-        if F64.isInf x then some none else some (some x)
-      else Api.parseFloatText b
-    | [] => some none
+/-- `strconv.ParseFloat(b, 64)`: `some (some x)` parsed, `some none` = syntax or range error,
+    `none` = outside the model (hex floats, more than 800 significant digits) -/
+def parseFloat (b : Bytes) : Option (Option F64) := FloatDec.parseFloat b
 
-/-- `strconv.FormatFloat(x, 'f', -1, 64)`; `none` = outside the model (not integer-valued) -/
-def formatFloat (x : F64) : Option Bytes :=
-  if F64.isNaN x then some (Bytes.ofString "NaN")
-  else if F64.isInf x then some (Bytes.ofString (if F64.sign x then "-Inf" else "+Inf"))
-  else Api.formatFloat x
+/-- `strconv.FormatFloat(x, 'f', -1, 64)` (total; the `Option` is kept for the callers' shape) -/
+def formatFloat (x : F64) : Option Bytes := some (FloatDec.formatShortest x)
 
 /-- `redis.FormatFloat64(a)`: `none` = `a[0]` on an empty string (index-out-of-range panic);
     `some none` = ParseFloat error, or NaN (rejected since the fix "NaN was accepted as a sorted-set
